@@ -1,4 +1,95 @@
-import QlibcModel.Tree.Table
+/-
+  C04 — nearest-key search (`qtreetbl_find_nearest`): returns the stored key equal to the probe
+  if there is one, otherwise the greatest stored key smaller than the probe, otherwise the
+  smallest stored key; not-found on an empty table; always terminates; depends only on the
+  current set of keys.
+
+  Thin wrappers around `QlibcModel/Tree/Nearest.lean`.  Vocabulary: `floorL cmp key k l` is the
+  last entry of `l` whose key is not above `k`, and the first entry of `l` if there is none
+  (`floorL_spec`, `floorL_eq` give its reading on strictly ascending lists); `nearestAns tid e` is
+  key, value and the `getnext` cursor for entry `e`; `Upd NextRel t t'` = same shape and colours,
+  every node keeps key, value, identifier and stamp (only `next` may differ).
+-/
+import QlibcModel.Tree.WalkHistory
+
 namespace Qlibc.Props.C04
-theorem placeholder : True := trivial
+open Qlibc Qlibc.Tree T
+
+variable {K V : Type}
+
+/-- reading of the specification function on strictly ascending lists -/
+theorem floor_spec {α Kk : Type} {cmp : Kk → Kk → Ordering} {key : α → Kk} {l : List α}
+    (hs : Sorted cmp key l) (k : Kk) :
+    (l = [] ∧ floorL cmp key k l = none) ∨
+    (∃ e, floorL cmp key k l = some e ∧ e ∈ l ∧
+      ((cmp k (key e) ≠ .lt ∧ ∀ e' ∈ l, cmp k (key e') ≠ .lt → e' = e ∨ cmp (key e') (key e) = .lt) ∨
+       ((∀ e' ∈ l, cmp k (key e') = .lt) ∧ l.head? = some e))) :=
+  floorL_spec hs k
+
+theorem floor_eq {α Kk : Type} {cmp : Kk → Kk → Ordering} {key : α → Kk} (hc : CmpOk cmp) {l : List α}
+    (hs : Sorted cmp key l) {k : Kk} {e : α} (he : e ∈ l) (heq : cmp k (key e) = .eq) :
+    floorL cmp key k l = some e :=
+  floorL_eq hc hs he heq
+
+/-- Termination and memory safety: on a table with distinct node identifiers the search never
+    faults — the fuel `height + 2` suffices for the descent and for the climb, and every pointer
+    the climb follows was written by this very descent (the root's is cleared first).  No
+    assumption on the comparator or the order.  Only `next` fields change; not-found exactly on
+    the empty table. -/
+theorem nearest_terminates (cmp : K → K → Ordering) (s : Tbl K V) (k : K) (hd : DistinctIds s.root) :
+    ∃ s' r, Tbl.findNearest cmp s k = .ok (s', r) ∧ Upd NextRel s.root s'.root ∧
+      s'.num = s.num ∧ s'.tid = s.tid ∧ s'.fresh = s.fresh ∧ (r = none ↔ s.root = .nil) ∧
+      (∀ k' v c, r = some (k', v, c) → c.tid = s.tid ∧ c.next ≠ none) :=
+  nearest_total cmp s k hd
+
+/-- Floor semantics. -/
+theorem nearest_floor (cmp : K → K → Ordering) (hc : CmpOk cmp) {s : Tbl K V}
+    (ho : Ordered cmp keyOf s.root) (hd : DistinctIds s.root) (k : K) :
+    ∃ s', Tbl.findNearest cmp s k
+        = .ok (s', (floorL cmp keyOf k (inorder s.root)).map (nearestAns s.tid)) ∧
+      Upd NextRel s.root s'.root ∧ s'.num = s.num ∧ s'.tid = s.tid ∧ s'.fresh = s.fresh :=
+  Tree.nearest_floor cmp hc ho hd k
+
+/-- The answer depends only on the stored key/value sequence: two tables with the same in-order
+    contents — whatever their shapes, stamps and parent pointers, i.e. whatever their histories —
+    give the same key and value. -/
+theorem nearest_history_independent (cmp : K → K → Ordering) (hc : CmpOk cmp) {s₁ s₂ : Tbl K V}
+    (ho₁ : Ordered cmp keyOf s₁.root) (hd₁ : DistinctIds s₁.root)
+    (ho₂ : Ordered cmp keyOf s₂.root) (hd₂ : DistinctIds s₂.root)
+    (hkv : kvs s₁.root = kvs s₂.root) (k : K) :
+    ∃ s₁' r₁ s₂' r₂, Tbl.findNearest cmp s₁ k = .ok (s₁', r₁) ∧ Tbl.findNearest cmp s₂ k = .ok (s₂', r₂) ∧
+      r₁.map (fun x => (x.1, x.2.1)) = r₂.map (fun x => (x.1, x.2.1)) :=
+  Tree.nearest_history_independent cmp hc ho₁ hd₁ ho₂ hd₂ hkv k
+
+/-- The search keeps the traversal-epoch invariant of C03 (and quiescence). -/
+theorem nearest_epoch (cmp : K → K → Ordering) {s : Tbl K V} (h : EpochInv s) {k : K} {s' : Tbl K V} {r}
+    (hf : Tbl.findNearest cmp s k = .ok (s', r)) :
+    EpochInv s' ∧ (Quiescent s → Quiescent s') ∧ Upd Skel s.root s'.root ∧ s'.num = s.num ∧
+      s'.fresh = s.fresh ∧ (∀ k' v c, r = some (k', v, c) → c.tid ≤ s'.tid ∧ c.next ≠ none) :=
+  Tree.nearest_epoch cmp h hf
+
+/-- When no walk has been left unfinished, continuing with `getnext` from the returned cursor
+    never faults, returns every stored key/value pair exactly once and then reports the end. -/
+theorem nearest_then_walk (cmp : K → K → Ordering) {s : Tbl K V} (h : EpochInv s) (hq : Quiescent s)
+    {k : K} {s' : Tbl K V} {k' v c} (hf : Tbl.findNearest cmp s k = .ok (s', some (k', v, c))) (n : Nat) :
+    ∃ xs s'', walkFrom (s.root.size + 1 + n) s' c = .ok (xs, s'') ∧ xs.Perm (kvs s.root) :=
+  Tree.nearest_then_walk cmp h hq hf n
+
+/-! non-vacuity: a concrete table and what the theorems say about it -/
+
+example : ∃ s',
+    Tbl.findNearest compare demo 5 = .ok (s', some (3, 30, { tid := 1, next := some 2 })) ∧   -- greatest smaller
+    (∃ s', Tbl.findNearest compare demo 7 = .ok (s', some (7, 70, { tid := 1, next := some 3 }))) ∧   -- equal
+    (∃ s', Tbl.findNearest compare demo 0 = .ok (s', some (1, 10, { tid := 1, next := some 1 }))) := by   -- smallest
+  have hin : inorder demo.root = [⟨1, 10, 1, 0, none⟩, ⟨2, 20, 0, 0, none⟩, ⟨3, 30, 2, 0, none⟩, ⟨7, 70, 3, 0, none⟩] := rfl
+  have ho : Ordered compare keyOf demo.root := by
+    unfold Ordered Sorted; rw [hin]; simp [Nat.compare_eq_lt]
+  have hd : DistinctIds demo.root := by
+    have : ids demo.root = [1, 0, 2, 3] := rfl
+    unfold DistinctIds; rw [this]; decide
+  obtain ⟨s1, h1, _⟩ := nearest_floor compare cmpOk_nat ho hd 5
+  obtain ⟨s2, h2, _⟩ := nearest_floor compare cmpOk_nat ho hd 7
+  obtain ⟨s3, h3, _⟩ := nearest_floor compare cmpOk_nat ho hd 0
+  exact ⟨s1, h1, ⟨s2, h2⟩, ⟨s3, h3⟩⟩
+
 end Qlibc.Props.C04
